@@ -593,7 +593,7 @@ func poolSection(c *vlib.Ctx) {
 		}
 	})
 	if c.Only == "" {
-		min := int64((100 + c.NShards - 1) / c.NShards)
+		min := int64((400 + c.NShards - 1) / c.NShards)
 		for _, k := range pooled {
 			c.Floor("pool_reuse_"+k.Name, min, c.Counter("pool_reuse_"+k.Name))
 			// re-acquisitions whose previous use had populated only SOME of the fields
